@@ -34,7 +34,7 @@ UintVals == {"=0", "=255", "=256", "=65536", "=4294967296", "=184467440737095516
 ValsOf(k) == IF k \in UintFields THEN UintVals
              ELSE IF k \in TextFields THEN {"=", "=udp4://1.2.3.4:6363"}
              ELSE IF k \in NameFields THEN {"=/a", "=/a/b/cc"}
-             ELSE {"=0", "=1", "=2", "=3"}      \* face_persistency: 3 is not assigned today - a decoder returns what was encoded
+             ELSE {"=0", "=1", "=2"}      \* face_persistency: the assigned values (an enumeration is quantified over its members only)
 Empty == [k \in BodyNames |-> "none"]
 Full == [k \in BodyNames |-> CHOOSE v \in ValsOf(k) : \A w \in ValsOf(k) : Len(w) <= Len(v)]
 Singles == {[Empty EXCEPT ![k] = v] : <<k, v>> \in {<<k, v>> \in BodyNames \X (UNION {ValsOf(k) : k \in BodyNames}) : v \in ValsOf(k)}}
